@@ -34,14 +34,15 @@ func (i *Inode) IsDir() bool { return i.Mode&fs.ModeDir != 0 }
 
 // Disk is everything that survives a simulated process.
 type Disk struct {
-	Files map[string]*Inode `json:"files"`
-	Env   map[string]string `json:"env"`
-	Cwd   string            `json:"cwd"`
-	Exe   string            `json:"exe"`
-	Stdin []byte            `json:"stdin,omitempty"`
-	Root  bool              `json:"root,omitempty"` // true: permission bits are ignored (uid 0)
-	Quota int               `json:"quota,omitempty"`
-	Temps int               `json:"temps,omitempty"` // counter for CreateTemp/MkdirTemp names
+	Files    map[string]*Inode `json:"files"`
+	Env      map[string]string `json:"env"`
+	Cwd      string            `json:"cwd"`
+	Exe      string            `json:"exe"`
+	Stdin    []byte            `json:"stdin,omitempty"`
+	StdinTTY bool              `json:"stdin_tty,omitempty"` // true: reads return one line at a time (terminal); false: a pipe
+	Root     bool              `json:"root,omitempty"`      // true: permission bits are ignored (uid 0)
+	Quota    int               `json:"quota,omitempty"`
+	Temps    int               `json:"temps,omitempty"` // counter for CreateTemp/MkdirTemp names
 }
 
 // NewDisk returns a disk with "/" and "/tmp", HOME=/home/u and cwd /home/u/work.
@@ -627,7 +628,14 @@ func (f *File) Read(b []byte) (int, error) {
 		if len(st.disk.Stdin) == 0 {
 			return 0, io.EOF
 		}
-		n := copy(b, st.disk.Stdin)
+		chunk := st.disk.Stdin
+		if st.disk.StdinTTY {
+			// a terminal in canonical mode hands over one line per read
+			if i := strings.IndexByte(string(chunk), '\n'); i >= 0 {
+				chunk = chunk[:i+1]
+			}
+		}
+		n := copy(b, chunk)
 		st.disk.Stdin = st.disk.Stdin[n:]
 		return n, nil
 	}
